@@ -2,14 +2,14 @@
 
 Every enumerated program goes through `cppcheck --clang --dump` of the ASan+UBSan build (leak check off):
   S  the C08 scope-grammar corpus (all programs with <= 3 scopes, with/without global x; C subset as C),
-     150 programs per file (clang runs once per file inside cppcheck)
+     300 programs per file (clang runs once per file inside cppcheck)
   E  expression functions: every expression with 1 operator over 10 leaves / 32 operators (thorough: also all
      2-operator expressions over 4 leaves / 18 operators), as C and C++; ill-typed ones are dropped after a `clang -fsyntax-only` pass,
-     the accepted ones re-rendered 400 per file (analysed with --clang=<wrapper adding -w>, because any clang
+     the accepted ones re-rendered (up to 800 per file) (analysed with --clang=<wrapper adding -w>, because any clang
      warning makes the import stop with an internal error, which exempts the whole file)
   P  one translation unit per language feature (67 C++, 35 C snippets: statement kinds, casts, initialisers,
      templates, lambdas, GNU extensions ...), several files per cppcheck invocation
-Oracle: (a) no crash, no sanitizer report, no timeout; (b) if cppcheck reported no internal error for the file, its
+Oracle: (a) no crash, no sanitizer report; (b) if cppcheck reported no internal error for the file, its
 dump satisfies the C14 invariants of vlib/dumpcheck.py (ids, references, links, AST); (c) every variable use the
 imported model links is linked to the declaration `clang -ast-dump=json` names (vlib/nameres.judge_imported).
 """
@@ -58,7 +58,7 @@ def analyse(job):
     fam, lang = job["family"], job["lang"]
     files = list(job["files"])
     res = {"family": fam, "programs": 0, "nontrivial": 0, "stats": collections.Counter(), "dump_stats": {},
-           "problems": [], "internal_errors": [], "rejected_by_clang": 0, "harness": None}
+           "problems": [], "internal_errors": [], "rejected_by_clang": 0, "harness": None, "timeouts": []}
     with _ws({}) as ws:
         if fam == "E":
             # pass 1: drop ill-typed candidates, re-render the accepted ones
@@ -102,9 +102,13 @@ def analyse(job):
             unproc = [n for n in remaining if not os.path.exists(os.path.join(ws.dir, n + ".dump")) and n not in ierr]
             culprit = unproc[0] if unproc else remaining[-1]
             crashed_files.add(culprit)
-            res["problems"].append({"key": "crash:" + crash_signature(r), "file": culprit,
-                                    "msg": "cppcheck --clang rc=%s timed_out=%s: %s" % (r.rc, r.timed_out, err[-1500:]),
-                                    "source": dict((f[0], f[1]) for f in files)[culprit], "program": None})
+            if r.timed_out and RE_SAN.search(err) is None:
+                # not completing is neither a crash nor a completed analysis: recorded, not judged
+                res["timeouts"].append(culprit)
+            else:
+                res["problems"].append({"key": "crash:" + crash_signature(r), "file": culprit,
+                                        "msg": "cppcheck --clang rc=%s: %s" % (r.rc, err[-1500:]),
+                                        "source": dict((f[0], f[1]) for f in files)[culprit], "program": None})
             remaining = [n for n in unproc if n != culprit]
         names = [n for n in names if n not in crashed_files]
         if "Failed to execute" in err or "Failed to execute" in r.text_out():
@@ -169,7 +173,8 @@ def work(job):
     except Exception:
         import traceback
         return {"family": job["family"], "programs": 0, "nontrivial": 0, "stats": {}, "dump_stats": {}, "problems": [],
-                "internal_errors": [], "rejected_by_clang": 0, "harness": "harness exception: " + traceback.format_exc()[-800:]}
+                "internal_errors": [], "rejected_by_clang": 0, "timeouts": [],
+                "harness": "harness exception: " + traceback.format_exc()[-800:]}
 
 
 def jobs_for(tier):
@@ -186,8 +191,8 @@ def jobs_for(tier):
         if tier == "thorough":
             progs += [t for t in scopegen.programs(4, lang=lang) if scopegen.is_chain(t)]
         for gx in (0, 1):
-            for i in range(0, len(progs), 150):
-                chunk = progs[i:i + 150]
+            for i in range(0, len(progs), 300):
+                chunk = progs[i:i + 300]
                 src, ranges, tags = scopegen.render_batch_tagged(chunk, gx, lang, tag0=i)
                 yield {"family": "S", "lang": lang, "global_x": gx,
                        "files": [("s%d_%d.%s" % (gx, i, lang), src,
@@ -197,9 +202,9 @@ def jobs_for(tier):
         exprs = list(featgen.expressions(1))
         if tier == "thorough":
             exprs += list(featgen.expressions(2, full=True))
-        for i in range(0, len(exprs), 400):
+        for i in range(0, len(exprs), 800):
             yield {"family": "E", "lang": lang,
-                   "files": [("e%d.%s" % (i, lang), None, {"exprs": exprs[i:i + 400], "tag0": i})]}
+                   "files": [("e%d.%s" % (i, lang), None, {"exprs": exprs[i:i + 800], "tag0": i})]}
 
 
 def replay_case(a):
@@ -258,6 +263,8 @@ def main(tier, replay=None):
                 ctx.distinct("%s|%s|%s|%d" % (fam, job["lang"], job["files"][0][0], k))
             stats.update(res["stats"])
             dstats.update(res["dump_stats"])
+            for n in res["timeouts"]:
+                ctx.bump("files_timed_out_not_judged")
             for name, msg, nprog in res["internal_errors"]:
                 ierrs[re.sub(r"0x[0-9a-f]+|<[^>]*>|\d+", "#", msg)[:120]] += 1
                 ctx.bump("files_with_internal_error_not_judged")
@@ -281,7 +288,8 @@ def main(tier, replay=None):
     ctx.cov.update({"programs_by_family": dict(fam_prog), "files_analysed_with_clang_import": nfiles,
                     "variable_uses": dict(stats), "dump_invariant_instances": dict(dstats),
                     "internal_error_classes_not_judged": dict(ierrs), "problem_classes_seen": dict(keys_seen)})
-    ctx.assumptions = ["crash = negative/128+ exit status, sanitizer report on stderr or timeout of the ASan+UBSan build",
+    ctx.assumptions = ["crash = negative/128+ exit status or a sanitizer report on stderr of the ASan+UBSan build; a run that does "
+                       "not finish within 25 minutes is recorded as not judged",
                        "an internal error reported for a file exempts that file from (b) and (c), as the statement says",
                        "token positions of the import are only approximately clang's: a use is judged through the tokens at "
                        "the begin/end of clang's expression range, a declaration through (candidate position, name)"]
